@@ -4,7 +4,7 @@
 # each output with go/types against /repo's current varlink package.
 set -u
 TIER="${1:-quick}"; REPO="${2:-/repo}"
-HERE="$(cd "$(dirname "$0")" && pwd)"; VERIF="$(cd "$HERE/../.." && pwd)"
+HERE="$(cd "$(dirname "$0")" && pwd)"; VERIF="$(cd "$HERE/../.." && pwd)"; OUT="${VERIF_OUT:-$VERIF}"
 export GOFLAGS=-mod=mod GOPROXY=off GOSUMDB=off GOTOOLCHAIN=local
 DEPTH=1; [ "$TIER" = "thorough" ] && DEPTH=2
 BASE="${TMPDIR:-/var/tmp}"; W=$(mktemp -d "$BASE/c07-XXXXXX"); trap 'rm -rf "$W"' EXIT
@@ -18,16 +18,16 @@ nfail=$(grep -c '^BOUNDED-FAIL' "$W/out.txt")
 rc=0
 if [ -z "$done_line" ]; then
   echo "ENGINE-ERROR: bounded C07 driver did not complete" >&2; tail -5 "$W/out.txt" >&2
-  python3 "$HERE/merge_evidence.py" "$VERIF/evidence/C07.json" "driver did not complete" 0 0 0 "$DEPTH" 0
+  python3 "$HERE/merge_evidence.py" "$OUT/evidence/C07.json" "driver did not complete" 0 0 0 "$DEPTH" 0
   exit 0
 fi
 if [ "$nfail" -gt 0 ]; then
-  mkdir -p "$VERIF/replays/C07"
-  cp "$W/out.txt" "$VERIF/replays/C07/bounded_typecheck_failures.txt"
+  mkdir -p "$OUT/replays/C07"
+  cp "$W/out.txt" "$OUT/replays/C07/bounded_typecheck_failures.txt"
   echo "VIOLATION property=C07 replay=$VERIF/replays/C07/bounded_typecheck_failures.txt"
   rc=1
 fi
 descs=$(echo "$done_line" | sed 's/.*descriptions=\([0-9]*\).*/\1/'); tc=$(echo "$done_line" | sed 's/.*typechecked=\([0-9]*\).*/\1/')
-python3 "$HERE/merge_evidence.py" "$VERIF/evidence/C07.json" "ok" "$descs" "$tc" "$nfail" "$DEPTH" "$(echo "$t1 - $t0" | bc)"
+python3 "$HERE/merge_evidence.py" "$OUT/evidence/C07.json" "ok" "$descs" "$tc" "$nfail" "$DEPTH" "$(echo "$t1 - $t0" | bc)"
 echo "bounded(C07): descriptions=$descs typechecked=$tc fails=$nfail depth=$DEPTH (bounded stand-in, not a proof)" >&2
 exit $rc
